@@ -232,7 +232,8 @@ def st_schedule(draw):
             ops.append(["yield", draw(st.integers(1, 5))])
         else:
             ops.append(["disconnect", conn])
-    return {"backend": backend, "ops": ops}
+    # LMDB: the query-statistics queue (30 slots, drained slowly by a thread) is already full / almost full / empty
+    return {"backend": backend, "ops": ops, "analysis_backlog": draw(st.sampled_from([0, 0, 29, 30]))}
 
 
 class Schedule(Sub):
@@ -259,7 +260,10 @@ class Schedule(Sub):
         nt = False
         # SQL on a file database: with :memory: SQLAlchemy shares ONE connection, and cancelling an in-flight
         # query (CLOSE / replacing REQ) terminates it - an artefact of the test database, not of the relay
-        async with H.Rig(backend, config={"subscription_limit": LIMIT}, file_db=True if backend == "sql" else None) as rig:
+        async with H.Rig(backend, config={"subscription_limit": LIMIT}, file_db=True if backend == "sql" else None,
+                         analysis_backlog=case.get("analysis_backlog", 0)) as rig:
+            if case.get("analysis_backlog"):
+                labels.append("analysis-queue-backlog")
             for p in PRE:
                 await rig.add(p)
             conns = [rig.conn("10.0.0.1"), rig.conn("10.0.0.2")]
